@@ -24,8 +24,12 @@ ENC_TRUSTED = declib.DEC_TRUSTED + [
     "proves that its result ALWAYS satisfies the table/selector part of witness_ok (2..6 complete tables with lengths 1..20, selectors < "
     "#tables, count = ceil(nm/50) <= 18001) for every symbol vector, cluster factor and every admissible make_code_lengths, with no "
     "out-of-bounds access or failed assert; tied to encode.c by harness/gen_h.c (ASan+UBSan+asserts, poisoned state: nt, cost, selectors in "
-    "both numberings, tmap, every transmitted table) and on the real mtfv of whole blocks (gen_part.check_blocks). Remaining witness: BWT "
-    "primary index, padding (w_pad <= 3) and extra selector chosen in encode(); make_code_lengths() is proved total for every "
+    "both numberings, tmap, every transmitted table) and on the real mtfv of whole blocks (gen_part.check_blocks). Enc/EncodeModel.v models "
+    "encode() from the MTF stage on (cost arithmetic, packed selector MTF, tree_pad and surplus selector) and Properties_C02enc proves "
+    "that every computed block is byte aligned with |write_block| = 8 * out_expect_len, that every value the padded first table walks "
+    "through stays in 1..20, and the round trip/strictness with EVERYTHING computed (C02enc_stream_total); tied on whole blocks: "
+    "tree_pad, num_selectors, selectorMTF[], out_expect_len and the complete bytes of transmit() (encode_part.check_blocks). The ONLY "
+    "remaining witness is the BWT primary index (valid_idxb); make_code_lengths() is proved total for every "
     "frequency row with 3..258 entries and sum <= 3524319 (Huffman depth <= 30 by a Fibonacci argument on THIS two-queue construction; "
     "all asserts of build_tree/compute_depths hold), so Properties_C02gen_total states the round trip and strictness with computed tables "
     "and selectors without any proviso (C02gen_stream_total)",
@@ -180,6 +184,8 @@ def encoder_correspondence(check, cases, gen_vectors=False):
     try:
         import gen_part
         gen_stats["gen_blocks"] = gen_part.check_blocks(check, hres)
+        import encode_part
+        gen_stats["encode_blocks"] = encode_part.check_blocks(check, hres, cases)
         if gen_vectors:
             g = gen_part.correspond(check) or {}
             gen_stats["gen_vectors"] = {k: v for k, v in g.items() if k != "samples"}
